@@ -305,7 +305,7 @@ def mutations(t):
         if k == 'i':
             out += [['i', -t[1]], ['i', 0], ['f', float(t[1])]]
         if k == 's':
-            out += [['s', t[1] + 'b'], ['s', '']]
+            out += [['s', t[1] + 'b'], ['s', ''], ['s', t[1] + '\n'], ['s', '\n' + t[1]]]
         return out
     if k in ('l', 't', 'S', 'F'):
         items = t[1]
